@@ -4,9 +4,12 @@ import (
 	"fmt"
 	"strconv"
 	"strings"
+	"sync"
+	"sync/atomic"
 	"time"
 
 	"google.golang.org/protobuf/proto"
+	"reduction.dev/reduction/connectors"
 	"reduction.dev/reduction/proto/jobpb"
 	"reduction.dev/reduction/proto/snapshotpb"
 	"reduction.dev/reduction/storage/snapshots"
@@ -17,20 +20,143 @@ func init() { register("C12", propC12) }
 
 // ---- implementation side: the real snapshots.Store over an in-memory location ----
 
-type c12Run struct {
-	loc      *memLoc
-	store    *snapshots.Store
-	splitter *countingSplitter
+// c12Ctl is shared by the source splitters of all deployments of a case: it counts Checkpoint() calls (made by
+// Store.finishSnapshot inside the store's critical section) and can park the next one.
+type c12Ctl struct {
+	n       atomic.Int64
+	armed   atomic.Bool
+	reached chan struct{}
+	release chan struct{}
 }
 
-func (r *c12Run) newStore() {
-	r.splitter = &countingSplitter{}
+type c12Splitter struct {
+	connectors.UnimplementedSourceSplitter
+	ctl *c12Ctl
+}
+
+func (s *c12Splitter) Checkpoint() []byte {
+	s.ctl.n.Add(1)
+	if s.ctl.armed.CompareAndSwap(true, false) {
+		rel := s.ctl.release
+		s.ctl.reached <- struct{}{}
+		<-rel
+	}
+	return nil
+}
+
+type c12Pending struct {
+	done chan string
+}
+
+type c12Run struct {
+	loc   *memLoc
+	store *snapshots.Store
+	ctl   *c12Ctl
+	// a call parked inside Checkpoint() and the calls issued while it is parked
+	held   *c12Pending
+	queued []*c12Pending
+	mu     sync.Mutex        // guards the two maps (calls may run in goroutines)
+	spIDs  map[uint64]bool   // ids for which a savepoint was requested
+	pubs   map[uint64]string // what was persisted per published id
+}
+
+func (r *c12Run) noteSavepoint(id uint64) {
+	r.mu.Lock()
+	defer r.mu.Unlock()
+	r.spIDs[id] = true
+}
+
+func (r *c12Run) newStore(savepointURI string) {
+	r.ctl = &c12Ctl{reached: make(chan struct{}, 1), release: make(chan struct{})}
 	r.store = snapshots.NewStore(&snapshots.NewStoreParams{
 		FileStore:       r.loc,
 		SavepointsPath:  "savepoints",
 		CheckpointsPath: "checkpoints",
+		SavepointURI:    savepointURI,
 	})
-	r.store.RegisterSourceSplitter(r.splitter)
+	r.store.RegisterSourceSplitter(&c12Splitter{ctl: r.ctl})
+}
+
+// safely runs a real call and turns a panic into a result
+func safely(f func() string) (res string) {
+	defer func() {
+		if p := recover(); p != nil {
+			res = "panic " + strings.ReplaceAll(fmt.Sprint(p), "\n", " ")
+		}
+	}()
+	return f()
+}
+
+// issue performs one store call of the schedule. Normally inline. If the harness armed the splitter gate the
+// call runs in its own goroutine and may get parked inside Checkpoint() ("held"). While a call is parked, the
+// store mutex tells what happens to further calls: held => they block (started for real, chained so that they
+// enter in issue order, results reported by `release`); not held => the call runs now and its result is the
+// observation (the model says "blocked").
+func (r *c12Run) issue(f func() string) string {
+	if r.held != nil {
+		if !r.store.VerifStateLockedC12() {
+			return safely(f)
+		}
+		p := &c12Pending{done: make(chan string, 1)}
+		var prev *c12Pending
+		if len(r.queued) > 0 {
+			prev = r.queued[len(r.queued)-1]
+		}
+		r.queued = append(r.queued, p)
+		go func() {
+			if prev != nil {
+				res := <-prev.done
+				prev.done <- res
+			}
+			p.done <- safely(f)
+		}()
+		return "blocked"
+	}
+	if !r.ctl.armed.Load() {
+		return safely(f)
+	}
+	p := &c12Pending{done: make(chan string, 1)}
+	go func() { p.done <- safely(f) }()
+	select {
+	case res := <-p.done:
+		return res
+	case <-r.ctl.reached:
+		r.held = p
+		return "held"
+	case <-time.After(10 * time.Second):
+		return "timeout"
+	}
+}
+
+func (r *c12Run) releaseHeld() string {
+	if r.held == nil {
+		return "released -"
+	}
+	early := ""
+	for _, q := range r.queued {
+		select {
+		case res := <-q.done:
+			q.done <- res
+			early = " ran-while-held"
+		default:
+		}
+	}
+	close(r.ctl.release)
+	r.ctl.release = make(chan struct{})
+	wait := func(p *c12Pending) string {
+		select {
+		case res := <-p.done:
+			return res
+		case <-time.After(10 * time.Second):
+			return "timeout"
+		}
+	}
+	parts := []string{wait(r.held)}
+	for _, q := range r.queued {
+		parts = append(parts, wait(q))
+	}
+	r.held, r.queued = nil, nil
+	return "released " + strings.Join(parts, " ; ") + early
 }
 
 func c12Names(prefix, s string) []string {
@@ -88,7 +214,7 @@ func (r *c12Run) afterAck(err error, before int64, cp uint64) string {
 			res = "err other"
 		}
 	}
-	if r.splitter.n.Load() == before {
+	if r.ctl.n.Load() == before {
 		return res
 	}
 	deadline := time.Now().Add(5 * time.Second)
@@ -106,62 +232,142 @@ func (r *c12Run) afterAck(err error, before int64, cp uint64) string {
 	if proto.Unmarshal(data, &ck) != nil {
 		return res + " pub unreadable-file"
 	}
+	r.mu.Lock()
+	r.pubs[cp] = c12Desc(&ck)
+	r.mu.Unlock()
 	return res + " pub " + c12Desc(&ck)
 }
 
 func c12Impl(c lib.Case) []string {
-	r := &c12Run{loc: newMemLoc()}
-	r.newStore()
+	r := &c12Run{loc: newMemLoc(), spIDs: map[uint64]bool{}, pubs: map[uint64]string{}}
+	r.newStore("")
+	defer func() {
+		if r.held != nil { // never leave goroutines parked
+			close(r.ctl.release)
+		}
+	}()
 	out := make([]string, 0, len(c.Ops))
 	for _, op := range c.Ops {
 		f := strings.Fields(op)
 		u := func(i int) uint64 { v, _ := strconv.ParseUint(f[i], 10, 64); return v }
+		store := r.store
 		switch f[0] {
 		case "create":
-			id, err := r.store.CreateCheckpoint(c12Names("op", f[1]), c12Names("sr", f[2]))
-			if err != nil {
-				out = append(out, "inprogress")
-			} else {
-				out = append(out, fmt.Sprintf("id %d", id))
-			}
+			out = append(out, r.issue(func() string {
+				id, err := store.CreateCheckpoint(c12Names("op", f[1]), c12Names("sr", f[2]))
+				if err != nil {
+					return "inprogress"
+				}
+				return fmt.Sprintf("id %d", id)
+			}))
 		case "savepoint":
-			id, created, err := r.store.CreateSavepoint(c12Names("op", f[1]), c12Names("sr", f[2]))
-			switch {
-			case err != nil:
-				out = append(out, "sp already")
-			case created:
-				out = append(out, fmt.Sprintf("sp created %d", id))
-			default:
-				out = append(out, fmt.Sprintf("sp existing %d", id))
-			}
+			out = append(out, r.issue(func() string {
+				id, created, err := store.CreateSavepoint(c12Names("op", f[1]), c12Names("sr", f[2]))
+				switch {
+				case err != nil:
+					return "sp already"
+				case created:
+					r.noteSavepoint(id)
+					return fmt.Sprintf("sp created %d", id)
+				default:
+					r.noteSavepoint(id)
+					return fmt.Sprintf("sp existing %d", id)
+				}
+			}))
 		case "opack":
-			before := r.splitter.n.Load()
-			err := r.store.AddOperatorSnapshot(&snapshotpb.OperatorCheckpoint{
-				CheckpointId: u(2), OperatorId: "op" + f[1], DkvFileUri: fmt.Sprintf("op%s/ckpt-%s", f[1], f[3]),
-				KeyGroupRange: &snapshotpb.KeyGroupRange{Start: 0, End: 1},
-			})
-			out = append(out, r.afterAck(err, before, u(2)))
+			out = append(out, r.issue(func() string {
+				before := r.ctl.n.Load()
+				err := store.AddOperatorSnapshot(&snapshotpb.OperatorCheckpoint{
+					CheckpointId: u(2), OperatorId: "op" + f[1], DkvFileUri: fmt.Sprintf("op%s/ckpt-%s", f[1], f[3]),
+					KeyGroupRange: &snapshotpb.KeyGroupRange{Start: 0, End: 1},
+				})
+				return r.afterAck(err, before, u(2))
+			}))
 		case "srack":
-			before := r.splitter.n.Load()
-			var splits [][]byte
-			for _, v := range u64List(f[3]) {
-				splits = append(splits, []byte(strconv.FormatUint(v, 10)))
-			}
-			err := r.store.AddSourceSnapshot(&jobpb.SourceRunnerCheckpointCompleteRequest{CheckpointId: u(2), SourceRunnerId: "sr" + f[1], SplitStates: splits})
-			out = append(out, r.afterAck(err, before, u(2)))
+			out = append(out, r.issue(func() string {
+				before := r.ctl.n.Load()
+				var splits [][]byte
+				for _, v := range u64List(f[3]) {
+					splits = append(splits, []byte(strconv.FormatUint(v, 10)))
+				}
+				err := store.AddSourceSnapshot(&jobpb.SourceRunnerCheckpointCompleteRequest{CheckpointId: u(2), SourceRunnerId: "sr" + f[1], SplitStates: splits})
+				return r.afterAck(err, before, u(2))
+			}))
 		case "redeploy":
 			// a new deployment registers its source splitter (jobs.Job.start)
-			r.splitter = &countingSplitter{}
-			r.store.RegisterSourceSplitter(r.splitter)
-			out = append(out, "ok")
+			out = append(out, r.issue(func() string {
+				store.RegisterSourceSplitter(&c12Splitter{ctl: r.ctl})
+				return "ok"
+			}))
+		case "hold":
+			if r.held != nil {
+				out = append(out, "skipped")
+			} else {
+				r.ctl.armed.Store(true)
+				out = append(out, "armed")
+			}
+		case "release":
+			out = append(out, r.releaseHeld())
 		case "current":
-			if ck := r.store.CurrentCheckpoint(); ck == nil {
+			if r.held != nil {
+				out = append(out, "skipped")
+			} else if ck := r.store.CurrentCheckpoint(); ck == nil {
 				out = append(out, "cur none")
 			} else {
 				out = append(out, "cur "+c12Desc(ck))
 			}
 		case "restart":
-			r.newStore()
+			if r.held != nil {
+				out = append(out, "skipped")
+				continue
+			}
+			r.newStore("")
+			if err := r.store.LoadCheckpoint(); err != nil {
+				out = append(out, "loaded error")
+			} else if ck := r.store.CurrentCheckpoint(); ck == nil {
+				out = append(out, "loaded none")
+			} else {
+				out = append(out, fmt.Sprintf("loaded %d", ck.Id))
+			}
+		case "sprestart":
+			// restart the job from the savepoint of checkpoint k: fresh = a new storage location that holds only
+			// the savepoint artifacts; same = the job's own storage
+			if r.held != nil {
+				out = append(out, "skipped")
+				continue
+			}
+			k := u(1)
+			r.mu.Lock()
+			usable := r.spIDs[k] && strings.Contains(r.pubs[k], " ops=- ")
+			r.mu.Unlock()
+			if !usable {
+				out = append(out, "nosavepoint")
+				continue
+			}
+			uri := ""
+			deadline := time.Now().Add(5 * time.Second)
+			for uri == "" && time.Now().Before(deadline) { // the artifact is written after the publication
+				if got, err := r.store.SavepointURIForID(k); err == nil {
+					uri = got
+				} else {
+					time.Sleep(50 * time.Microsecond)
+				}
+			}
+			if uri == "" {
+				out = append(out, "nosavepoint timeout")
+				continue
+			}
+			if f[2] == "fresh" {
+				fresh := newMemLoc()
+				for p, err := range r.loc.List() {
+					if err == nil && strings.HasPrefix(p, "savepoints/") {
+						b, _ := r.loc.Read(p)
+						fresh.Write(p, strings.NewReader(string(b)))
+					}
+				}
+				r.loc = fresh
+			}
+			r.newStore(uri)
 			if err := r.store.LoadCheckpoint(); err != nil {
 				out = append(out, "loaded error")
 			} else if ck := r.store.CurrentCheckpoint(); ck == nil {
@@ -270,7 +476,58 @@ func c12Gen(r *lib.Rng, tier string, _ int) lib.Case {
 	}
 	n := r.Range(8, 40)
 	restarts := 0
+	holdLeft := 0 // > 0: a hold window is open (or armed); counts the calls still to issue before `release`
+	var spDone []uint64
+	spNoOps := false
+	closeHold := func() {
+		if holdLeft > 0 {
+			holdLeft = 0
+			c.Ops = append(c.Ops, "release")
+		}
+	}
 	for len(c.Ops) < n {
+		if holdLeft > 0 {
+			holdLeft--
+			if holdLeft == 0 {
+				c.Ops = append(c.Ops, "release")
+				continue
+			}
+		} else if ref.pending && r.Chance(1, 6) {
+			// park the splitter: the call that finishes the snapshot stays inside Checkpoint() while the next
+			// calls of the schedule are issued concurrently
+			c.Ops = append(c.Ops, "hold")
+			c.Tags = append(c.Tags, "hold")
+			holdLeft = r.Range(3, 7)
+			// drive the pending checkpoint to completion so that the window really opens
+			for o := uint64(1); o <= 9; o++ {
+				if d, ok := ref.ops[o]; ok && !d && r.Chance(4, 5) {
+					c.Ops = append(c.Ops, fmt.Sprintf("opack %d %d %d", o, ref.cid, r.Intn(50)))
+					ref.ops[o] = true
+				}
+			}
+			for sr := uint64(1); sr <= 9; sr++ {
+				if d, ok := ref.srs[sr]; ok && !d && r.Chance(4, 5) {
+					c.Ops = append(c.Ops, fmt.Sprintf("srack %d %d %d", sr, ref.cid, r.Intn(50)))
+					ref.srs[sr] = true
+				}
+			}
+			if ref.complete() {
+				ref.pending, ref.pubMax = false, ref.cid
+				c.Tags = append(c.Tags, "published", "held-window")
+				if ref.sp && spNoOps {
+					spDone = append(spDone, ref.cid)
+				}
+				// typical racers: a retried acknowledgement of the same id, a redeployment and a new checkpoint
+				if r.Bool() {
+					c.Ops = append(c.Ops, fmt.Sprintf("srack 1 %d 7", ref.cid))
+				}
+				if r.Bool() {
+					c.Ops = append(c.Ops, fmt.Sprintf("opack 1 %d 7", ref.cid))
+				}
+				c.Tags = append(c.Tags, "bad-ack")
+			}
+			continue
+		}
 		switch k := r.Intn(20); {
 		case k < 3:
 			start("create")
